@@ -564,15 +564,55 @@ func newBatchNode(opts []any) *flyt.BatchNodeBuilder {
 		elem := ft.In(0).Elem()
 		for _, o := range opts {
 			v := reflect.ValueOf(o)
-			switch {
-			case v.Type().AssignableTo(elem):
-				args = append(args, v)
-			case v.Type().ConvertibleTo(elem):
-				args = append(args, v.Convert(elem))
+			if a, ok := asArg(v, elem); ok {
+				args = append(args, a)
 			}
 		}
 	}
 	return fn.Call(args)[0].Interface().(*flyt.BatchNodeBuilder)
+}
+
+// asArg converts an option value to the constructor's parameter type: as it is, by conversion, or
+// (a plain func(*BaseNode)) via flyt.NodeOption when the parameter is an interface NodeOption implements.
+func asArg(v reflect.Value, elem reflect.Type) (reflect.Value, bool) {
+	switch {
+	case v.Type().AssignableTo(elem):
+		return v, true
+	case v.Type().ConvertibleTo(elem):
+		return v.Convert(elem), true
+	}
+	if no := reflect.TypeOf(flyt.NodeOption(nil)); v.Type().ConvertibleTo(no) && no.AssignableTo(elem) {
+		return v.Convert(no), true
+	}
+	return reflect.Value{}, false
+}
+
+// newNode calls flyt.NewNode(opts...) through reflection (see newBatchNode).
+func newNode(opts []any) *flyt.NodeBuilder {
+	fn := reflect.ValueOf(flyt.NewNode)
+	ft := fn.Type()
+	var args []reflect.Value
+	if ft.NumIn() == 1 && ft.IsVariadic() {
+		elem := ft.In(0).Elem()
+		for _, o := range opts {
+			v := reflect.ValueOf(o)
+			if a, ok := asArg(v, elem); ok {
+				args = append(args, a)
+			}
+		}
+	}
+	return fn.Call(args)[0].Interface().(*flyt.NodeBuilder)
+}
+
+// callBuilder calls the chained builder method `name` on b with one argument if b has such a
+// method (the plain NodeBuilder's batch settings are a convenience an implementation may drop).
+func callBuilder(b any, name string, arg any) bool {
+	m := reflect.ValueOf(b).MethodByName(name)
+	if !m.IsValid() || m.Type().NumIn() != 1 || !reflect.TypeOf(arg).AssignableTo(m.Type().In(0)) {
+		return false
+	}
+	m.Call([]reflect.Value{reflect.ValueOf(arg)})
+	return true
 }
 
 func embeddedBase(obj any) *flyt.BaseNode {
